@@ -8,8 +8,8 @@ CLIENT_TASK = [P + "ClientSSM.process_task[%s]" % s for s in _CS + ("COMPLETED",
 CLIENT_START = [P + "ClientSSM.indication[local %s]" % s for s in SEG]
 SERVER_START = [P + "ServerSSM.indication[IDLE, ConfirmedRequest, local %s%s]" % (s, c) for s in SEG for c in ("", ", reserved max-APDU code")]
 SERVER_IN = [P + "ServerSSM.indication[%s, %s]" % sk for sk in (("SEGMENTED_REQUEST", "ConfirmedRequest"), ("SEGMENTED_REQUEST", "Abort"),
-             ("SEGMENTED_REQUEST", "SegmentAck"), ("AWAIT_RESPONSE", "ConfirmedRequest"), ("AWAIT_RESPONSE", "Abort"),
-             ("SEGMENTED_RESPONSE", "SegmentAck"), ("SEGMENTED_RESPONSE", "Abort"))]
+             ("SEGMENTED_REQUEST", "SegmentAck"), ("AWAIT_RESPONSE", "ConfirmedRequest"), ("AWAIT_RESPONSE", "Abort"), ("AWAIT_RESPONSE", "SegmentAck"),
+             ("SEGMENTED_RESPONSE", "SegmentAck"), ("SEGMENTED_RESPONSE", "Abort"), ("SEGMENTED_RESPONSE", "ConfirmedRequest"))]
 SERVER_ANSWER = [P + "ServerSSM.confirmation"]
 SERVER_TASK = [P + "ServerSSM.process_task[%s]" % s for s in ("SEGMENTED_REQUEST", "AWAIT_RESPONSE", "SEGMENTED_RESPONSE", "COMPLETED", "ABORTED")]
 SEGMENTS = [P + "SSM.in_window", P + "SSM.get_segment[ClientSSM]", P + "SSM.get_segment[ServerSSM]"]
@@ -26,6 +26,6 @@ SSM_ASSUMPTIONS = [
     "everything leaving a transaction is a ghost-traced external: Client.request (to the network), ServiceAccessPoint.sap_request / sap_response (to the application), DeviceInfoCache.acquire / release / update_device_info",
     "segment sizes are drawn from {50, 480} in mid-transfer states and computed from max-APDU values in {50, 128.., 480, 1024, 1476, 1497} at the start (a symbolic size makes count * size non-linear); payload, counts, indexes, sequence numbers, invoke IDs, retry counts and timeouts are symbolic and unbounded where the type allows",
     "fill_window is unrolled over the actual window size: windows up to SSM_WINDOW (2 in the quick tier, 8 in the thorough tier -- the property's window range 1..8); larger windows are not covered by the sender-side obligations",
-    "honest peer: a segment ack names a segment this side has sent (the last one only after it was sent) or an older one, window sizes in acks and requests are 1..127, the first PDU of a segmented request carries sequence number 0",
+    "honest peer: a segment ack names a segment this side has sent (the last one only after it was sent) or an older one, window sizes in acks and requests are 1..127",
     "whole-history claims (any loss / duplication / delay / reordering) = induction over the per-call contracts: the class invariant is established at the start and preserved by every entry point for every PDU and every timeout, so it holds after every sequence of them; the composition itself is the standard invariant argument and is not machine-checked as a whole",
 ]
